@@ -9,7 +9,9 @@ import (
 	"encoding/hex"
 	"encoding/json"
 	"fmt"
+	"massnet.org/mass/zz_verif/faultdb"
 	"reflect"
+	"sync/atomic"
 	"testing"
 
 	"github.com/massnetorg/mass-core/pocec"
@@ -468,7 +470,7 @@ func TestVerifC03(t *testing.T) {
 		{K: oImport, Slot: 0, P: wCur, P2: -1}, {K: oImport, Slot: 0, P: wPrevious, P2: wCur}, {K: oImport, Slot: 0, P: wCur, P2: wWrong}, {K: oImport, Slot: 0, P: wPrevious, P2: -1},
 		{K: oRestart, P: wCurPub, P2: -1},
 	}
-	var probes int64
+	var probes, faultedRekeys int64
 	c.tail = func(c *wCtx, in *wInst, m *wModel, hist []wOp, res wResult) bool {
 		last := wKindName[hist[len(hist)-1].K]
 		if !wLockedClean(c, in, m, hist, last) {
@@ -603,18 +605,102 @@ func TestVerifC03(t *testing.T) {
 			c.viol(cl, st, msg, hist)
 			return false
 		}
-		return true
+		return c03FaultedRekey(c, hist, res, &faultedRekeys)
 	}
 	depth := vk.Pick(r, 5, 6)
 	r.Set("probe_classes", []string{"other private candidate", "superseded private passphrase", "public passphrase", "ill-formed", "never-used well-formed"})
 	wRunPropWith(c, depth, func() {
 		r.Set("guarded_operation_probes_with_wrong_passphrase", probes)
 		r.Set("locked_state_secret_scans", c.lockedScans)
+		r.Set("rekey_operations_repeated_under_each_storage_failure", atomic.LoadInt64(&faultedRekeys))
 	},
 		"BFS over wallet histories with guarded operations called with current, wrong, superseded, public and ill-formed passphrases; after every operation: success iff the reference says the passphrase is the current private one; while the reference is locked no keystore is unlocked, nothing signs and the in-package scan finds no working secret (master key that decrypts the crypto key, crypto key that decrypts the account key, private scalars, hash of the current passphrase) - non-working residue is counted as diagnostic only; in every state Unlock/Export/Delete/ChangePriv/Import/New are probed with 5 wrong-passphrase classes and must be refused without effect, then Export and ChangePriv with the current one must work and leave a locked wallet clean, and after a restart the superseded passphrase is dead and the new one unlocks all keystores; distinct_nontrivial = distinct canonical states")
 }
 
 func wRunPropWith(c *wCtx, depth int, extra func(), rule string) { wRunPropX(c, depth, extra, rule) }
+
+// c03FaultedRekey: "one private passphrase governs all keystores at all times" must also hold when a change of
+// the private passphrase is cut short by a failing storage operation. When the history just ended with a
+// successful ChangePrivPassphrase on a wallet with two or more keystores, that operation is repeated (on fresh
+// instances built by replaying the prefix) once per storage event of the operation with that event failing; whatever
+// the operation then reports, afterwards - in the running instance and after a restart - exactly one of the two
+// passphrases unlocks, it unlocks every keystore, every keystore exports under it and none under the other.
+func c03FaultedRekey(c *wCtx, hist []wOp, res wResult, counter *int64) bool {
+	op := hist[len(hist)-1]
+	prefix := hist[:len(hist)-1]
+	if op.K != oChPriv || !res.ok {
+		return true
+	}
+	before := wModelOf(prefix)
+	if len(before.Ks) < 2 {
+		return true
+	}
+	opR := wResolve(before, op)
+	oldp, newp := before.Priv, opR.P2
+	in, m, ok := c.build(prefix)
+	if !ok {
+		return true
+	}
+	in.fdb.Arm(0, faultdb.None)
+	c.step(in, m, op, hist, false)
+	events := in.fdb.Events()
+	in.close()
+	for _, ev := range events {
+		in, _, ok := c.build(prefix)
+		if !ok {
+			continue
+		}
+		in.fdb.Arm(ev.N, faultdb.FailWrite)
+		r2 := in.apply(opR, c.obs)
+		if !in.fdb.Fired() {
+			in.close()
+			continue
+		}
+		in.fdb.Disarm()
+		atomic.AddInt64(counter, 1)
+		site := "ChangePriv:failWrite@" + ev.Op
+		fail := func(msg string) bool {
+			c.r.Violation("C03/passphrases-split-after-failed-rekey/"+site, fmt.Sprintf("storage failure at event %d (%s) of %s (reported ok=%v): %s; history %v", ev.N, ev.Op, op, r2.ok, msg, c.rp(hist, "").Text),
+				map[string]interface{}{"ops": hist, "event": ev.N, "event_op": ev.Op})
+			in.close()
+			return false
+		}
+		for _, phase := range []string{"running instance", "after restart"} {
+			if phase == "after restart" {
+				if err := in.restart(before.Pub); err != nil {
+					return fail("wallet does not open after restart: " + err.Error())
+				}
+			} else {
+				in.km.Lock()
+			}
+			var governs []int
+			for _, pw := range []int{oldp, newp} {
+				if in.km.Unlock([]byte(wPass[pw])) == nil {
+					governs = append(governs, pw)
+					if !wAllUnlocked(in) {
+						return fail(fmt.Sprintf("%s: Unlock(%q) succeeded but not every keystore is unlocked", phase, wPass[pw]))
+					}
+					in.km.Lock()
+				}
+			}
+			if len(governs) != 1 {
+				return fail(fmt.Sprintf("%s: %d of the two passphrases (old %q, new %q) unlock the wallet", phase, len(governs), wPass[oldp], wPass[newp]))
+			}
+			other := oldp + newp - governs[0]
+			for seed := range before.Ks {
+				id := c.obs.idOf(seed)
+				if _, err := in.km.ExportKeystore(id, []byte(wPass[governs[0]])); err != nil {
+					return fail(fmt.Sprintf("%s: keystore of seed %d does not export under the governing passphrase %q: %v", phase, seed, wPass[governs[0]], err))
+				}
+				if _, err := in.km.ExportKeystore(id, []byte(wPass[other])); err == nil {
+					return fail(fmt.Sprintf("%s: keystore of seed %d exports under %q although %q governs the wallet", phase, seed, wPass[other], wPass[governs[0]]))
+				}
+			}
+		}
+		in.close()
+	}
+	return true
+}
 
 // ------------------------------------------------------------------ C01
 
